@@ -123,11 +123,15 @@ func (cs *checkState) run() int {
 
 	agg := newAggregate(cs.prop, cs.tier, cs.seed, cs.plan)
 	var (
-		mu       sync.Mutex
-		viols    []violation
-		troubles []string
-		wg       sync.WaitGroup
-		ch       = make(chan task)
+		mu         sync.Mutex
+		viols      []violation
+		troubles   []string
+		stallNotes []string
+		stallsBy   = map[string]int{}
+		spinStalls int
+		abandoned  = map[string]bool{}
+		wg         sync.WaitGroup
+		ch         = make(chan task)
 	)
 	for i := 0; i < procs; i++ {
 		wg.Add(1)
@@ -149,6 +153,16 @@ func (cs *checkState) run() int {
 				for _, d := range r.deaths {
 					agg.addDeath(t.spec.Flavour)
 					viols = append(viols, violation{Flavour: t.spec.Flavour, Run: d.Begin.Run, Seed: d.Begin.Seed, Class: d.Class, Message: d.Note, IsDeath: true})
+				}
+				for _, st := range r.stalls {
+					agg.addStall(st.Class)
+					stallsBy[t.spec.Flavour]++
+					if !strings.Contains(st.Class, "mutex") {
+						spinStalls++
+					}
+					if len(stallNotes) < 3 {
+						stallNotes = append(stallNotes, fmt.Sprintf("run %d (seed %d, %s): %s", st.Begin.Run, st.Begin.Seed, t.spec.Flavour, st.Note))
+					}
 				}
 				if r.trouble != "" {
 					troubles = append(troubles, r.trouble)
@@ -172,6 +186,16 @@ func (cs *checkState) run() int {
 		if fresh >= 25 {
 			stoppedEarly = true
 			break
+		}
+		mu.Lock()
+		skip := stallsBy[t.spec.Flavour] >= 12
+		if skip && !abandoned[t.spec.Flavour] {
+			abandoned[t.spec.Flavour] = true
+			fmt.Printf("verif: flavour %s abandoned after %d stalled runs\n", t.spec.Flavour, stallsBy[t.spec.Flavour])
+		}
+		mu.Unlock()
+		if skip {
+			continue
 		}
 		ch <- t
 	}
@@ -230,6 +254,20 @@ func (cs *checkState) run() int {
 			fmt.Printf("  class: %s\n  %s\n", v.Class, indent(firstLines(v.Message, 12)))
 			reported = append(reported, path)
 			exit = 1
+		}
+	}
+	if agg.stalls > 0 {
+		fmt.Printf("verif: %d run(s) stalled and were counted as inconclusive (outside the auto-instrumented flavour the cooperative scheduler cannot resolve a spin-wait or a sync.Mutex held by a parked actor), e.g. %s\n", agg.stalls, strings.Join(stallNotes, "; "))
+		// stalls are trouble when nothing else covers the code: spin-waits anywhere, any stall in the auto
+		// flavour, or mutex stalls in a check that has no auto flavour
+		hasAuto := false
+		for _, f := range fl {
+			if f.Flavour == "auto" {
+				hasAuto = true
+			}
+		}
+		if spinStalls*20 > agg.evaluations || stallsBy["auto"] > 0 || (!hasAuto && agg.stalls*20 > agg.evaluations) {
+			troubles = append(troubles, fmt.Sprintf("%d runs stalled (%d not on a mutex, %d in the auto flavour): the remaining runs cannot decide the property", agg.stalls, spinStalls, stallsBy["auto"]))
 		}
 	}
 	agg.violations = len(fresh)
@@ -331,13 +369,25 @@ func (cs *checkState) confirmAndWrite(v violation, deadline time.Time) (path str
 	if err := writeReplay(path, &rf); err != nil {
 		return "", false, err.Error()
 	}
-	// the replay must reproduce the same class, twice
+	// the replay must reproduce the same class, twice; if the recorded schedule cannot be followed, fall back
+	// to replaying by seed (the run is a pure function of its seed), which must then reproduce twice as well
 	for i := 0; i < 2; i++ {
 		got, note := replayClassWant(bin, path, v.Flavour, v.Class)
 		if got != v.Class {
+			if !rf.BySeed {
+				rf.BySeed, rf.Choices = true, nil
+				if err := writeReplay(path, &rf); err != nil {
+					return "", false, err.Error()
+				}
+				i = -1
+				continue
+			}
 			os.Remove(path)
 			return "", false, fmt.Sprintf("replay %d gave %q (%s)", i+1, got, firstLines(note, 5))
 		}
+	}
+	if rf.BySeed {
+		return path, true, ""
 	}
 	orig := map[string]any{"steps": len(rf.Choices)}
 	min := shrink(cs.plan.Engine, bin, &rf, deadline)
